@@ -53,7 +53,7 @@ package grpcmux
 
 //@ func (*grpcmux.GRPCServerMuxer).session
 //@   nopanic [C08.total] [C03.d]
-//@   bounded always [C09.timer] [C03.c]
+//@   bounded always [C09.timer] [C03.c] [C18.gor]
 //@   requires m.sessionErrCh != nil
 //@   modifies nothing
 //@   ensures result1 == nil ==> result0 != nil && result0 == m.sess   [C08.session]
@@ -62,7 +62,7 @@ package grpcmux
 //@ func (*grpcmux.GRPCServerMuxer).Accept
 //@   dead return#3 a knock is only acknowledged for an id whose listener is registered (fixed defect D4)
 //@   nopanic [C08.total] [C20.nopanic]
-//@   bounded peer-dead [C09.timer]
+//@   bounded peer-dead [C09.timer] [C18.gor]
 //@   wait send#1 the brokered listener for the knocked ID is being accepted on by its gRPC server (AcceptAndServe) until it is closed
 //@   requires m.sessionErrCh != nil && m.knockCh != nil && m.logger != nil && !held(m.acceptMutex) && kch_owner[m.knockCh] == m
 //@   modifies heap, yaccepts, tokens, conns_open, $LOG
@@ -74,7 +74,7 @@ package grpcmux
 
 //@ func (*grpcmux.GRPCServerMuxer).Close
 //@   nopanic [C18.total] [C08.total]
-//@   bounded always [C03.c]
+//@   bounded always [C03.c] [C18.gor]
 //@   requires m.ln != nil && m.sessionErrCh != nil
 //@   modifies lsn
 //@   local ln_closed: Bool := false
@@ -84,7 +84,7 @@ package grpcmux
 
 //@ func (*grpcmux.GRPCServerMuxer).Listener
 //@   nopanic [C08.total] [C20.nopanic]
-//@   bounded always [C03.c]
+//@   bounded always [C03.c] [C18.gor]
 //@   requires m.sessionErrCh != nil && !held(m.acceptMutex)
 //@   modifies heap_fresh, sreg, mapof(m.acceptChannels)
 //@   at mapupdate#1 set sreg := sreg[m := sreg[m][key := true]]
@@ -94,7 +94,7 @@ package grpcmux
 
 //@ func (*grpcmux.GRPCServerMuxer).AcceptKnock
 //@   nopanic [C08.total] [C20.nopanic]
-//@   bounded peer-dead [C09.timer]
+//@   bounded peer-dead [C09.timer] [C18.gor]
 //@   wait send#1 the knock channel has capacity 1 and Accept drains it before handing out the next connection; establishments are sequential (documented)
 //@   requires m.knockCh != nil && kch_owner[m.knockCh] == m && sreg[m][id]   [C08.mux-s]
 //@   modifies nothing
@@ -103,7 +103,7 @@ package grpcmux
 
 //@ func (*grpcmux.GRPCServerMuxer).Dial
 //@   nopanic [C08.total] [C03.d]
-//@   bounded peer-dead [C03.c]
+//@   bounded peer-dead [C03.c] [C18.gor]
 //@   requires m.sessionErrCh != nil
 //@   modifies yopens, tokens
 
@@ -136,27 +136,27 @@ package grpcmux
 
 //@ func (*grpcmux.GRPCClientMuxer).Dial
 //@   nopanic [C08.total] [C03.d]
-//@   bounded peer-dead [C03.c]
+//@   bounded peer-dead [C03.c] [C18.gor]
 //@   requires m.session != nil
 //@   modifies yopens
 
 //@ func (*grpcmux.blockedClientListener).unblock
 //@   nopanic [C08.total] [C20.nopanic]
-//@   bounded peer-dead [C09.timer]
+//@   bounded peer-dead [C09.timer] [C18.gor]
 //@   wait send#1 waitCh has capacity 1 and knocks for one id are serialised by the dialling side (dialMutex held from knock to Dial; documented precondition: sequential establishment), so the buffer has room
 //@   requires b.waitCh != nil
 //@   modifies nothing
 
 //@ func (*grpcmux.blockedClientListener).Accept
 //@   nopanic [C08.total] [C03.d]
-//@   bounded peer-dead [C09.timer]
+//@   bounded peer-dead [C09.timer] [C18.gor]
 //@   wait select#1 ends when the listener's doneCh is closed (listener closed) or a knock unblocks it
 //@   requires b.waitCh != nil && b.doneCh != nil && b.session != nil
 //@   modifies yaccepts
 
 //@ func (*grpcmux.blockedServerListener).Accept
 //@   nopanic [C08.total] [C03.d]
-//@   bounded peer-dead [C09.timer]
+//@   bounded peer-dead [C09.timer] [C18.gor]
 //@   wait select#1 ends when the listener's doneCh is closed (listener closed) or the muxer hands over a connection
 //@   requires b.acceptCh != nil && b.doneCh != nil
 //@   modifies nothing
